@@ -13,6 +13,8 @@ pub mod c10;
 pub mod c11;
 pub mod c12;
 pub mod c13;
+pub mod c14;
+pub mod c15;
 pub mod c16;
 pub mod c17;
 pub mod c18;
@@ -45,6 +47,8 @@ pub fn lookup(id: &str) -> Option<Prop> {
         "C11" => Prop { isolate: false, level: "model_checking", run: c11::run, replay: c11::replay },
         "C12" => Prop { isolate: false, level: "model_checking", run: c12::run, replay: c12::replay },
         "C13" => Prop { isolate: false, level: "fault_enumeration", run: c13::run, replay: c13::replay },
+        "C14" => Prop { isolate: false, level: "model_checking", run: c14::run, replay: c14::replay },
+        "C15" => Prop { isolate: false, level: "model_checking", run: c15::run, replay: c15::replay },
         "C16" => Prop { isolate: false, level: "model_checking", run: c16::run, replay: c16::replay },
         "C17" => Prop { isolate: false, level: "model_checking", run: c17::run, replay: c17::replay },
         "C18" => Prop { isolate: false, level: "model_checking", run: c18::run, replay: c18::replay },
